@@ -296,6 +296,9 @@ def configs():
     # zero-size bodies made of triangles: zero-area Triangle (all vertices equal / collinear), zero-volume Tetrahedron (coplanar / all equal)
     out += [("Triangle", dict(vertices=[(0, 0, 0)] * 3, exc=e, degenerate=True)), ("Triangle", dict(vertices=[(0, 0, 0), (1, 0, 0), (2, 0, 0)], exc=e, degenerate=True)),
             ("Tetrahedron", dict(vertices=[(0, 0, 0)] * 4, exc=e, degenerate=True)), ("Tetrahedron", dict(vertices=[(0, 0, 0), (1, 0, 0), (0, 1, 0), (1, 1, 0)], exc=e, degenerate=True))]
+    # an area so small that its square underflows (the normal vector's norm is computed as sqrt of a sum of squares)
+    out += [("Triangle", dict(vertices=[(0, 0, 0), (1, 0, 0), (2, 1e-300, 0)], exc=e, degenerate=True, underflow=True)),
+            ("Triangle", dict(vertices=[(0, 0, 0), (1e-170, 0, 0), (0, 1e-170, 0)], exc=e, degenerate=True))]
     return out
 
 
@@ -468,6 +471,8 @@ def region_match(k, b):
     if not reg or b[2] is None or reg["kind"] != b[0]:
         return False
     if bool(reg.get("degenerate")) != bool(b[1].get("degenerate")):
+        return False
+    if bool(reg.get("underflow")) != bool(b[1].get("underflow")):
         return False
     if reg.get("dimension_aspect_min"):
         d = np.array(b[1]["dimension"], dtype=float)
